@@ -3,6 +3,7 @@ import LdarModel.Driver.Proto
 /-
 Driver for the cost model.
   select <perDay> <perSite|-> <upfront> <stationary> <crews>        -> <day|site> <unitCost> <upfrontTotal>
+  constructs <perDay> <perSite|-> <upfront> [[stationary,crews],...]  -> [upfront of each method built in turn] <upfront parameter afterwards>
   mday <perDay> <perSite|-> <upfront> <scale> <stationary> <budget> <crews> <considerWeather>
        [tLo,tHi,wLo,wHi,pLo,pHi] [[site,S,P,inProgress,travelSoFar,T,siteCost,temp,wind,precip],...]
                                                                    -> <day|site> <unitCost> <upfrontTotal> <deployCost>
@@ -57,6 +58,11 @@ def parseEv (s : String) : Option (Nat × Emission.TagEv) := do
   | [d, c, t] => if d < 0 ∨ c < 0 then none else some (d.toNat, { company := c.toNat, trd := t })
   | _ => none
 
+def parseBuild (s : String) : Option (Bool × Nat) := do
+  match ← intList? s with
+  | [st, n] => if n < 0 then none else some (decide (st ≠ 0), n.toNat)
+  | _ => none
+
 def mkCost (pd : Int) (ps : Option Int) (up : Int) : MethodCost := { perDay := pd, perSite := ps, upfront := up }
 
 def step (_ : Unit) (toks : List String) : Unit × String :=
@@ -67,6 +73,12 @@ def step (_ : Unit) (toks : List String) : Unit × String :=
       let c := mkCost pd ps up
       ((), s!"{showType (selectCost c).1} {(selectCost c).2} {upfrontCost c st n}")
     | _, _, _, _, _ => ((), "bad-op")
+  | ["constructs", pd, ps, up, bs] =>
+    match int? pd, optInt? ps, int? up, listOf? parseBuild bs with
+    | some pd, some ps, some up, some bs =>
+      let r := constructAll bs (mkCost pd ps up)
+      ((), s!"{showList toString r.1} {r.2.upfront}")
+    | _, _, _, _ => ((), "bad-op")
   | ["mday", pd, ps, up, sc, st, b, n, cw, env, reqs] =>
     match int? pd, optInt? ps, int? up, nat? sc, bool? st, int? b, nat? n, bool? cw, parseEnv env, listOf? parseReq reqs with
     | some pd, some ps, some up, some sc, some st, some b, some n, some cw, some env, some reqs =>
